@@ -384,8 +384,15 @@ def dupsCase (args : List String) (impl : String) : Verdict :=
     | none => bad "dups-n"
   | _ => bad "dups-arity"
 
+/-- a server without Handler / SecretSource refuses Serve and ListenAndServe at once; Shutdown then returns nil -/
+def nilCfgCase (impl : String) : Verdict :=
+  let model := " ".intercalate ((List.range 3).flatMap fun k => [s!"cfg{k}=refused", s!"cfg{k}=refused", s!"shutdown{k}=nil"])
+  mk impl model [("no_panic", !((impl.splitOn "PANIC").length > 1 || (impl.splitOn "HANG").length > 1)),
+                 ("misconfigured_server_refuses_and_shuts_down", impl == model)]
+
 def c06 (op : String) (args : List String) (impl : String) : Verdict :=
   match op with
+  | "nilcfg" => nilCfgCase impl
   | "dups" => dupsCase args impl
   | "scenario" => scenarioCase args impl
   | _ => bad s!"op:{op}"
